@@ -248,7 +248,13 @@ def main():
         if vh is None:
             print(log); raise SystemExit("harness build failed")
 
-        cases = gen_cases(r) + first_use_after_rebuild_cases(r)
+        rounds = max(1, int(round(float(os.environ.get("DIFFTEST_SCALE", "1.0")))))      # thorough tier: several rounds of the generator
+        cases = []
+        for rd in range(rounds):
+            batch = gen_cases(r) + first_use_after_rebuild_cases(r)
+            for c in batch:
+                c.name = "%s@%d" % (c.name, rd) if rounds > 1 else c.name
+            cases += batch
         print("generated %d command sequences (seed %d)" % (len(cases), seed), flush=True)
         ser = lhv(["lh1ser " + c.cmds for c in cases])
         exp = lhv(["lh1exp " + c.cmds for c in cases])
